@@ -18,6 +18,7 @@ import os
 import random
 import subprocess
 import vlib
+import c01
 from vlib import Check, run_tlc, run_cmd, build_harness, validate_trace, FrameworkError, WORK, log
 
 PID = "C20"
@@ -138,7 +139,8 @@ def planners_twice(ck, tier, binary):
             jobs.append({"planner": p["name"], "W": W, "H": H, "obst": obst, "start": s, "goal": g,
                          "seed": rng.randrange(1, 1 << 30), "budget": rng.choice([3000, 6000]) if slow else rng.choice([5, 60, 300, 900]),
                          "thr": rng.choice([0.0, 0.4]), "solves": rng.choice([1, 1, 2]),
-                         "space": rng.choice(["R2", "R2", "SE2", "R3"]), "objective": rng.choice(["", "length"])})
+                         "space": rng.choice(["R2", "R2", "SE2", "R3"]), "objective": rng.choice(["", "length"]),
+                         "params": c01.pick_params(p, rng, prob=0.5)})
 
     def one(args):
         j, rep = args
